@@ -12,9 +12,9 @@ import (
 type TyKind int
 
 const (
-	TInt    TyKind = iota // any Go integer type in a mathematical-int model
-	TReal                 // spec-level real
-	TFloat                // Go float64 (Real in model real, XR in model xreal)
+	TInt   TyKind = iota // any Go integer type in a mathematical-int model
+	TReal                // spec-level real
+	TFloat               // Go float64 (Real in model real, XR in model xreal)
 	TBool
 	TBV32   // uint32 in model bv
 	TSlice  // Go slice value (sort Slice), contents in the element heap
